@@ -400,6 +400,14 @@ var c10NestedSets = []struct {
 	{map[string]string{"base": "[{% block a %}A{% endblock %}|{% block b %}B{% endblock %}|{% block c %}C{% endblock %}]", "main": "{% extends 'base' %}{% block a %}1{% block b %}2{% block c %}3{% endblock %}{% endblock %}{% endblock %}"}, "[123|23|3]"},
 	{map[string]string{"base": "[{% block a %}A{% endblock %}|{% block b %}B{% endblock %}]", "mid": "{% extends 'base' %}{% block a %}m{% block b %}mB{% endblock %}{% endblock %}", "main": "{% extends 'mid' %}{% block a %}c[{{ parent() }}]{% endblock %}"}, "[c[mmB]|mB]"},
 	{map[string]string{"base": "[{% block a %}A{% endblock %}|{% block b %}B{% endblock %}]", "main": "{% extends 'base' %}{% block a %}{% block b %}{% endblock %}{% endblock %}"}, "[|]"},
+	// ... and inside a condition, a loop, an apply or a spaceless section of an overriding block
+	{map[string]string{"base": "<{% block c %}{% endblock %}>/{% block s %}LS{% endblock %}", "main": "{% extends 'base' %}{% block c %}{% if true %}{% block s %}PS{% endblock %}{% endif %}{% endblock %}"}, "<PS>/PS"},
+	{map[string]string{"base": "<{% block c %}{% endblock %}>/{% block s %}LS{% endblock %}", "mid": "{% extends 'base' %}{% block c %}{% if true %}{% block s %}PS{% endblock %}{% endif %}{% endblock %}", "main": "{% extends 'mid' %}{% block s %}[{{ parent() }}]{% endblock %}"}, "<[PS]>/[PS]"},
+	{map[string]string{"base": "{% block h %}{% endblock %}|{% for i in [1, 2] %}{% block row %}<{{ i }}>{% endblock %}{% endfor %}", "main": "{% extends 'base' %}{% block h %}{% block row %}[{{ parent() }}]{% endblock %}{% endblock %}"}, "[<>]|[<1>][<2>]"},
+	{map[string]string{"base": "{% block outer %}<{% block inner %}x{% endblock %}>{% endblock %}", "main": "{% extends 'base' %}{% block inner %}{% if true %}{% block outer %}MO{% endblock %}{% endif %}{% endblock %}"}, "MO"},
+	{map[string]string{"base": "[{% block a %}A{% endblock %}|{% block b %}B{% endblock %}]", "main": "{% extends 'base' %}{% block a %}{% for i in [1, 2] %}{% block b %}bx{% endblock %}{% endfor %}{% endblock %}"}, "[bxbx|bx]"},
+	{map[string]string{"base": "[{% block a %}A{% endblock %}|{% block b %}B{% endblock %}]", "main": "{% extends 'base' %}{% block a %}{% apply upper %}x{% block b %}nb{% endblock %}{% endapply %}{% spaceless %}<i> {% block c %}c{% endblock %} </i>{% endspaceless %}{% endblock %}"}, "[XNB<i> c </i>|nb]"},
+	{map[string]string{"base": "[{% block a %}A{% endblock %}|{% block b %}B{% endblock %}]", "main": "{% extends 'base' %}{% block a %}{% if false %}{% block b %}hidden{% endblock %}{% else %}e{% endif %}{% endblock %}"}, "[e|hidden]"},
 }
 
 // checkC10Nested: a block written inside an overriding block is a definition of that template: it
@@ -420,7 +428,7 @@ func checkC10Nested(c C10NestedCase) error {
 }
 
 func TestC10Nested(t *testing.T) {
-	r := NewRec(t, "C10", "exhaustive: 11 template sets in which a block is written inside an overriding block of a child or middle template (a block the layout has at top level, a new block, with parent(), three deep, with an empty body, overridden again further down); expected text written out; all cases non-trivial")
+	r := NewRec(t, "C10", "exhaustive: 18 template sets in which a block is written inside an overriding block of a child or middle template (a block the layout has at top level, a new block, with parent(), three deep, with an empty body, overridden again further down; directly, and under if, else, for, apply and spaceless; a layout block inside a loop reached by parent() before the loop runs); expected text written out; all cases non-trivial")
 	defer r.Flush()
 	r.SetExhaustive()
 	for i := range c10NestedSets {
